@@ -41,8 +41,12 @@ func (tf *termFormatter) FormatTerm(t rdf.Term) string {
 	switch t := t.(type) {
 	case rdf.IRI:
 		if pr, ok := tf.prefixes.CompactPrefix(string(t)); ok {
-			return pr.Prefix + ":" + format_PN_LOCAL(pr.Reference)
-		} else if tf.base != nil {
+			if local, ok := format_PN_LOCAL(pr.Reference); ok {
+				return pr.Prefix + ":" + local
+			}
+		}
+
+		if tf.base != nil {
 			if reference, ok := tf.base.RelativizeIRI(string(t)); ok {
 				return "<" + formatIRI(reference, tf.ascii) + ">"
 			}
